@@ -270,10 +270,9 @@ class Policy:
         for rule in self[sec][ptype].policy:
             if all(value == "" or rule[field_index + i] == value for i, value in enumerate(field_values)):
                 effects.append(rule)
-            else:
-                tmp.append(rule)
 
-        self[sec][ptype].policy = tmp
+        for rule in effects:
+            self[sec][ptype].policy.remove(rule)
 
         return effects
 
@@ -290,10 +289,10 @@ class Policy:
         for rule in self[sec][ptype].policy:
             if all(value == "" or rule[field_index + i] == value for i, value in enumerate(field_values)):
                 res = True
-            else:
                 tmp.append(rule)
 
-        self[sec][ptype].policy = tmp
+        for rule in tmp:
+            self[sec][ptype].policy.remove(rule)
 
         return res
 
